@@ -217,7 +217,7 @@ def run_impl(case):
     value = float(like().detach())
     n = case["n"]
     bl = like.tree_model.branch_lengths().detach()
-    if case["treem"].get("newick"):
+    if case["treem"].get("newick") and case["treem"].get("bl") is not None:
         want = case["treem"]["bl"]
         got = [float(x) for x in bl]
         if len(got) != len(want) or any(abs(g - w) > 1e-12 * max(1.0, abs(w)) for g, w in zip(got, want)):
